@@ -91,9 +91,16 @@ fn op_json(op: &Op, n: usize) -> serde_json::Value {
 
 fn end_panic(p: Box<dyn std::any::Any + Send>) {
     let (kind, msg) = classify(&p);
+    if kind == "cancel_pw" || (kind == "cancel_pp" && crate::log::LOG_WCC.load(Ordering::Relaxed) != 0) {
+        LAST_CANCEL.with(|c| c.set(true));
+    }
     // the payload may own nothing of ours; drop it quietly
     drop(p);
     ev!("e": "ret", "ok": 0, "kind": kind, "msg": msg, "v": -1, "s": 0, "hs": Vec::<String>::new(), "acc": Vec::<i64>::new());
+}
+
+pub fn do_mut_op(db: &mut VDb, op: &Op, n: usize) {
+    do_mut(db, op, n)
 }
 
 fn do_mut(db: &mut VDb, op: &Op, n: usize) {
@@ -115,6 +122,18 @@ fn do_mut(db: &mut VDb, op: &Op, n: usize) {
         }
         Err(p) => end_panic(p),
     }
+}
+
+/// Runs a read operation; returns true if it ended in a cancellation (the handle must be given up).
+pub fn do_read_op<'db>(db: &'db VDb, op: &Op, n: usize, held: &mut Vec<&'db Val>) -> bool {
+    let before = LAST_CANCEL.with(|c| c.replace(false));
+    let _ = before;
+    do_read(db, op, n, held);
+    LAST_CANCEL.with(|c| c.replace(false))
+}
+
+thread_local! {
+    static LAST_CANCEL: std::cell::Cell<bool> = const { std::cell::Cell::new(false) };
 }
 
 fn do_read<'db>(db: &'db VDb, op: &Op, n: usize, held: &mut Vec<&'db Val>) {
